@@ -122,7 +122,7 @@ func c10Chains(c *Case) {
 
 // evalDigestAny evaluates src on ctx: a scalar value or the full delivery sequence.
 func (c *Case) evalDigestAny(src string, ctx *xdoc.Node) (string, bool) {
-	ce, err := xpath.Compile(src)
+	ce, err := safeCompile(src)
 	if err != nil {
 		return "COMPILE-ERROR", false
 	}
